@@ -836,7 +836,21 @@ func checkResponseTable(c *Ctx, parse *ssa.Function, cmdOf map[string]string) {
 	// the packet types whose transactions are registered: the types the packet is tested for (a type switch and a chain
 	// of comma-ok assertions are the same instructions)
 	var regTypes []*types.Named
+	// in the registering function, or in a module helper it calls with the packet (requestOfPacket(pkt))
+	regScan := []*ssa.Function{reg}
 	core.EachInstr(reg, func(in ssa.Instruction) {
+		if call, ok := in.(*ssa.Call); ok {
+			if f := call.Call.StaticCallee(); f != nil && core.InModule(f) && f.Parent() == nil && len(f.Blocks) > 0 && core.ShortPkg(f) == core.ShortPkg(reg) {
+				regScan = append(regScan, f)
+			}
+		}
+	})
+	eachRegInstr := func(f func(in ssa.Instruction)) {
+		for _, g := range regScan {
+			core.EachInstr(g, f)
+		}
+	}
+	eachRegInstr(func(in ssa.Instruction) {
 		ta, ok := in.(*ssa.TypeAssert)
 		if !ok || !ta.CommaOk {
 			return
